@@ -333,11 +333,12 @@ fn space_p(p: Params) -> BoxedStrategy<SpaceP> {
             prop_oneof![3 => Just(0u8), 1 => Just(1u8), 1 => Just(2u8)],
             prop_oneof![4 => Just(true), 1 => Just(false)],
             prop_oneof![3 => Just(1.0f32), 1 => (2u32..=12).prop_map(|m| m as f32)],
-            dec2(2.2, 6.0),
+            prop_oneof![5 => dec2(2.2, 6.0), 1 => super::geom::dec3(2.2, 6.0)],
             prop_oneof![3 => Just(0.0f32), 1 => dec2(-6.0, -0.1), 1 => dec2(0.1, 12.0)],
             opt(2, dec2(0.1, 10.0)),
         ),
-        (dec2(-30.0, 30.0), dec2(-30.0, 30.0), dec2(2.0, 20.0), dec2(2.0, 15.0), prop_oneof![2 => Just(0.0f32), 1 => dec2(0.0, 359.0)]),
+        // footprint sizes: usually whole centimetres, one in six with millimetres
+        (dec2(-30.0, 30.0), dec2(-30.0, 30.0), prop_oneof![5 => dec2(2.0, 20.0), 1 => super::geom::dec3(2.0, 20.0)], prop_oneof![5 => dec2(2.0, 15.0), 1 => super::geom::dec3(2.0, 15.0)], prop_oneof![2 => Just(0.0f32), 1 => dec2(0.0, 359.0)]),
         proptest::collection::vec(elem_p(p, 0, [2, 4, 2, 1]), 1..=2),
         prop_oneof![1 => Just(None), 5 => (elem_p(p, 1, [5, 1, 3, 1]), prop_oneof![3 => Just(true), 1 => Just(false)]).prop_map(Some)],
         // four side walls; one space in ten is only partly enclosed or has no side wall at all (a model being
